@@ -74,6 +74,10 @@ def gen(rng, tier):
             yield Case("aliasappend", [alpha, rs, "selectsites", ",".join(map(str, lists[0]))], big, "aliasappend-selectsites-run")
             yield Case("aliasappend", [alpha, rs, "randsub", "%d,%d" % (rng.randint(1, L), rng.randint(0, 1))], big, "aliasappend-randsub-len")
             yield Case("alias", [alpha, rs, "randsub", "%d,%d" % (rng.randint(1, L), rng.randint(0, 1))], big, "alias-randsub-len")
+        if alpha == 0:
+            # protein alignment + nucleotide sequences -> codon alignment (rows without gap, rows with extra nucleotides)
+            prow = [(nm, sq if rng.random() < 0.5 else sq.replace("-", "A")) for nm, sq in rows]
+            yield Case("aliascodon", [rows_str(prow), rng.randint(0, 2)], big, "alias-codonalign")
         for mode in ("halves", "codon"):
             yield Case("aliassplit", [alpha, rs, mode], big and L >= 3, "alias-split-" + mode)
 
@@ -82,8 +86,8 @@ def matches(c):
     if c.model == c.impl:
         return True
     # sharing operations: only the sharing itself is modelled
-    if c.op in ("alias", "aliasappend") and c.model == "shared=1":
+    if c.op in ("alias", "aliasappend", "aliascodon") and c.model == "shared=1":
         return (c.impl or "").startswith("shared=1") or c.impl == "err"
-    if c.op in ("alias", "aliasappend") and c.impl == "err":
+    if c.op in ("alias", "aliasappend", "aliascodon") and c.impl == "err":
         return True
     return False
